@@ -9,7 +9,8 @@ from sa.engine.source import norm
 from .common import A, checkpoint_typestate, is_current_task, queue_ends
 
 EXPLANATION = ("Lock (asyncio backend): guarded ownership writes (no barging, mutual exclusion on the fast path), direct hand-off "
-               "in release(), FIFO queue ends, cancel-safe waiter protocol, misuse errors.")
+               "in release(), FIFO queue ends, cancel-safe waiter protocol, misuse errors."
+               " A dequeued waiter is dropped un-woken only if its own future is cancelled; `async with` cannot fail once it has acquired.")
 NOT_DECIDED = ("The emergent behaviour over whole histories (that these per-site rules imply a FIFO mutex) is a paper argument; "
                "schedules, uvloop/eager configurations are not explored.")
 
